@@ -15,8 +15,14 @@ ITER_TYPE = {'ancestors': 'Ancestors', 'predecessors': 'Predecessors', 'precedin
 T_, F_ = z3.BoolVal(True), z3.BoolVal(False)
 
 
+UNMAP = None      # embedded mode: real position -> abstract slot number, applied by id_terms
+PREFER = []       # embedded mode: constraints preferred (not required) for counterexample models (small arenas replay faster)
+EMBED_MAXLEN = 1 << 17
+
+
 class ICtx:
-    def __init__(self, prog, N, fix_x=None, max_steps=None):
+    def __init__(self, prog, N, fix_x=None, max_steps=None, embedded=False):
+        global UNMAP, PREFER
         self.prog, self.N = prog, N
         self.eng = Engine(prog, max_steps=max_steps or (6000 + 6000 * N))
         self.A = SymArena(N)
@@ -24,8 +30,15 @@ class ICtx:
         self.x = z3.BitVec('x', 64) if fix_x is None else BV64(fix_x)
         self.eng.solver.add(z3.UGE(self.x, 1), z3.ULE(self.x, N), sel([self.A.live(i) for i in range(N)], self.x))
         self.st = State()
-        self.acell = self.st.new_cell(self.A.value())
-        self.pre = View(self.A.value())
+        self.pre = View(self.A.value())             # abstract view: slot numbers 1..N
+        self.embedded = embedded
+        UNMAP = None; PREFER = []
+        if embedded:
+            # the N modelled slots are a link-closed component at symbolic positions of an arena of symbolic length
+            for c in self.A.embed(EMBED_MAXLEN): self.eng.solver.add(c)
+            UNMAP = self.A.to_abstract
+            PREFER = [z3.ULT(self.A.at[-1], 200), z3.ULE(self.A.vlen, self.A.at[-1] + 2)]
+        self.acell = self.st.new_cell(self.A.value(embedded=embedded))
         self.id_x = self.A.id_of(self.x)
 
     def aref(self): return Ref(self.acell, ())
@@ -39,7 +52,8 @@ def opt_parts(v):
 
 
 def id_terms(nid):
-    return zb(nid.f[0].f[0]), zb(nid.f[1].f[0])
+    i = zb(nid.f[0].f[0])
+    return (UNMAP(i) if UNMAP else i), zb(nid.f[1].f[0])
 
 
 def edge_terms(e):
@@ -279,6 +293,7 @@ def check_obligations(eng, pc, ob, prefixes, res, mk_viol):
         if r == z3.unsat:
             res['discharged'] += len(remaining); return
         m = sv.model()
+        if PREFER and eng.check(pc + [neg] + PREFER) == z3.sat: m = sv.model()
         failed = [n for (n, f) in remaining if z3.is_false(m.eval(f, model_completion=True))]
         if not failed:
             res['unknown'] = 'model does not falsify any obligation'; return
@@ -314,7 +329,7 @@ def run_iter_job(prog, job):
     t0 = time.time()
     name, N = job['name'], job['N']
     prefixes = tuple(p + '.' for p in job['props'])
-    ic = ICtx(prog, N, job.get('fix_x'))
+    ic = ICtx(prog, N, job.get('fix_x'), embedded=job.get('embedded', False))
     eng = ic.eng
     res = new_result(job)
     if eng.solver.check() != z3.sat:
@@ -373,7 +388,7 @@ def run_pair_job(prog, job):
     t0 = time.time()
     N = job['N']
     prefixes = tuple(p + '.' for p in job['props'])
-    ic = ICtx(prog, N, job.get('fix_x'))
+    ic = ICtx(prog, N, job.get('fix_x'), embedded=job.get('embedded', False))
     eng = ic.eng
     res = new_result(job)
     if eng.solver.check() != z3.sat:
@@ -442,7 +457,7 @@ def run_de_job(prog, job):
     t0 = time.time()
     name, N = job['name'], job['N']
     prefixes = tuple(p + '.' for p in job['props'])
-    ic = ICtx(prog, N, job.get('fix_x'))
+    ic = ICtx(prog, N, job.get('fix_x'), embedded=job.get('embedded', False))
     eng = ic.eng
     res = new_result(job)
     if eng.solver.check() != z3.sat:
